@@ -8,6 +8,7 @@ from molli.chem import Atom, Molecule, Structure, CartesianGeometry, ConformerEn
 from molli.chem.geometry import DistanceUnit
 
 SPLIT = int(os.environ.get("XH_SPLIT", "-1"))
+QUICK = os.environ.get("XH_THOROUGH") != "1" and os.environ.get("XH_REPLAY") != "1"
 XYZ = [[0.0, 0.0, 0.0], [-1.5, 2.25, 1e-7], [123456.789012, -99999.5, 0.1234564], [1.0000004, -0.0000004, 3.3333333], [1e-3, -1e3, 42.0]]
 NEL = 119
 
@@ -87,6 +88,39 @@ def _rt(cls_sel, z0, na, xsel, nframes, route):
     if not _close(r.coords, coords):
         return False
     return r.dumps_xyz().split("\n")[2:] == text.split("\n")[2:]       # atom lines are a fixed point (the comment line carries the name)
+
+
+def h_xyz_frames(cls_sel: int, z0: int, na: int, shift: int, xsel: int, third: int) -> bool:
+    """
+    a multi-frame xyz text of DIFFERENT molecules: frame 2 has the atom count of frame 1 but other elements / another atom order (element list
+    shifted or reversed), frame 3 another count; read back with loads_all_xyz / yield_from_xyz: every frame has its own count, order, elements and coordinates
+    pre: 0 <= cls_sel <= 2 and 0 <= z0 < NEL and 1 <= na <= 3 and 0 <= shift <= 3 and 0 <= xsel < len(XYZ) and 0 <= third <= 2
+    pre: SPLIT < 0 or z0 % 16 == SPLIT
+    pre: not QUICK or (xsel == (z0 + na) % 5 and third == (shift + na) % 3)
+    post: _
+    """
+    cls = [CartesianGeometry, Structure, Molecule][pick(cls_sel, 3)]
+    z0, na, shift, xsel, third = pick(z0, NEL), pick(na, 4), pick(shift, 4), pick(xsel, len(XYZ)), pick(third, 3)
+    els1 = [(z0 + 7 * i) % NEL for i in range(na)]
+    els2 = els1[::-1] if shift == 0 else [(z + shift) % NEL for z in els1]
+    frames = [(els1, 0), (els2, 1)]
+    if third == 1:
+        frames.append((els1, 2))                       # the first molecule again, after a different one
+    elif third == 2:
+        frames.append((els2 + [1], 2))                 # another atom count
+    text, want = "", []
+    for els, k in frames:
+        n = len(els)
+        coords = np.array([XYZ[(xsel + i + k) % len(XYZ)] for i in range(n)], dtype=float).reshape((n, 3))
+        text += cls([Atom(z) for z in els], coords=coords, name=f"f{k}").dumps_xyz()
+        want.append((els, coords))
+    got = cls.loads_all_xyz(text)
+    if len(got) != len(want):
+        return False
+    for r, (els, coords) in zip(got, want):
+        if r.n_atoms != len(els) or [int(a.element) for a in r.atoms] != els or not _close(r.coords, coords):
+            return False
+    return True
 
 
 def h_xyz_dummy(sym_sel: int, xsel: int) -> bool:
@@ -204,7 +238,7 @@ def run(rep, tier):
     from engine import xh
     rep.encoded = ENCODED
     rep.extra["module"] = "harness.C08"
-    rep.bounds = {"round trip": "CartesianGeometry/Structure/Molecule/ConformerEnsemble, 0..3 atoms, element of atom 0 over all 119, 1..3 frames, 5 coordinate rows (negative, >=1e5, 1e-7, 7 decimals)",
+    rep.bounds = {"round trip": "multi-frame texts of different molecules (same count with other elements / order, other count); CartesianGeometry/Structure/Molecule/ConformerEnsemble, 0..3 atoms, element of atom 0 over all 119, 1..3 frames, 5 coordinate rows (negative, >=1e5, 1e-7, 7 decimals)",
                   "units (SR)": "symbolic real coordinates of one atom through the real yield_from_xyz / yield_from_mol2 unit branch and scale(), every member and alias of DistanceUnit, tolerance 1e-4 relative against an independent CODATA table"}
     rep.outside = ["float formatting of magnitudes beyond the menu", "[selector-bound] for the text round trip", "reals, not floats, in the unit proof (rounding of the conversion factor is inside the 1e-4 tolerance)"]
     rep.assumptions = ["read_xyz / read_mol2 are replaced by a stub yielding one block with symbolic coordinates for the SR part (the parsers themselves are exercised by the XH part)"]
@@ -213,6 +247,8 @@ def run(rep, tier):
     else:
         specs = [{"fn": "h_xyz_roundtrip", "timeout": 3000, "split": c} for c in range(16)]
     specs += [{"fn": "h_xyz_dummy", "timeout": 300}]
+    # quick: element of atom 0 from every 16th residue class that is 0 mod 4 (4 processes); thorough: all 16 classes
+    specs += [{"fn": "h_xyz_frames", "timeout": 600 if tier == "quick" else 3000, "split": c, "env": ({} if tier == "quick" else {"XH_THOROUGH": "1"})} for c in (range(0, 16, 4) if tier == "quick" else range(16))]
     xh.run_obligations(rep, "harness.C08", specs)
     sr_units(rep, tier)
 
